@@ -382,3 +382,5 @@ def run(ctx):
     C06.r1b_path_sites(ctx, 'C20.R10')  # a handle operation on another thread announces its work: the connection task is woken after it queues anything
     from .. import boundaries as _b
     _b.check_predicates(ctx, 'C20.RP', 'C20')
+    from .. import boundaries as _b
+    _b.check_updates(ctx, 'C20.RU', 'C20')
